@@ -78,6 +78,7 @@ typedef struct fx {
     double *f1;
     double *f3, *f5, *fdesc, *fneg, *flow, *fhigh, *sig5, *sigz, *signeg;
     double *fcrowd;		/* ascending, two points 2e-5 Hz apart */
+    double *fnan, *signan;	/* one entry is NaN */
     double complex *g5, *z2, *vec3, *mat4;
     double complex **mp, **ap;
     int *s4, *s4u, *pm12, *pm21, *pm11, *pm01, *pm13;
@@ -290,6 +291,8 @@ static const char *fx_build(fx_t *F)
     F->fdesc = fx_block(F, 5 * sizeof(double));
     F->fneg = fx_block(F, 5 * sizeof(double));
     F->fcrowd = fx_block(F, 5 * sizeof(double));
+    F->fnan = fx_block(F, 5 * sizeof(double));
+    F->signan = fx_block(F, 5 * sizeof(double));
     F->flow = fx_block(F, 5 * sizeof(double));
     F->fhigh = fx_block(F, 5 * sizeof(double));
     F->sig5 = fx_block(F, 5 * sizeof(double));
@@ -308,6 +311,8 @@ static const char *fx_build(fx_t *F)
 	F->fdesc[k] = c3_scA.vna.f[NF - 1] * (5 - k);
 	F->fneg[k] = k == 0 ? -1.0 : fk;
 	F->fcrowd[k] = k == 1 ? c3_scA.vna.f[0] + 2e-5 : fk;
+	F->fnan[k] = k == 1 ? NAN : fk;
+	F->signan[k] = k == 1 ? NAN : 0.01;
 	F->flow[k] = c3_scA.vna.f[0] * 1e-3 * (k + 1);
 	F->fhigh[k] = c3_scA.vna.f[NF - 1] * 1e3 * (k + 1);
 	F->sig5[k] = 0.01 * (k + 1);
